@@ -330,7 +330,21 @@ def guarded(c, f):
 def execute(inp, how):
     """-> (ctx, outcome, log)"""
     global CTX
+    how, _, attach = how.partition('/')
     c = CTX = Ctx(inp)
+    if attach:
+        kind = inp['conform']
+        base = get_class('absent', inp['provided'], inp['custom'])
+        if attach == 'instancefunc':
+            o = base()
+            o.__conform__ = lambda iface, o=o: _conform_body(o, iface, kind)
+        else:
+            holder = []
+            sub = type('S', (base,), {'__conform__': staticmethod(
+                lambda iface: _conform_body(holder[0], iface, kind))})
+            o = sub()
+            holder.append(o)
+        c.obj = o
     del LOG[:]
     I, obj = c.I, c.obj
     if inp['entry'] == 'adapt':
@@ -376,6 +390,10 @@ for childlib.CASE[0], case in enumerate(job['cases']):
     ways = ['pos']
     if inp['entry'] == 'call' and inp['alt'] != 'notGiven':
         ways.append('kw')
+    if inp['conform'] not in ('absent', 'attrAE', 'attrOther'):
+        # __conform__ need not be a method of the class: a plain function
+        # stored on the instance, or a staticmethod, is called just the same
+        ways += ['pos/instancefunc', 'pos/staticmethod']
     for how in ways:
         try:
             c, out, log = execute(inp, how)
